@@ -893,6 +893,9 @@ where
     }
     if i % 17 == 0 {
         rb.extend([1, 2, 3].iter().cloned());
+        let n = rb.max_len() as i32;
+        rb.extend(0..(2 * n + 3));
+        rb.extend((0..(n + 2)).filter(|x| x % 2 == 0));
     }
     black_box((rb.len(), rb.is_empty(), rb.is_full(), rb.max_len()));
 }
@@ -916,6 +919,11 @@ where
     let (a, b) = rb.slices();
     black_box(a.len() + b.len());
     rb.extend([1, 2].iter().cloned());
+    // more items than slots, from iterators with exact, inexact and absent size hints
+    let n = rb.len() as i32;
+    rb.extend(0..(2 * n + 3));
+    rb.extend((0..(n + 2)).filter(|x| x % 2 == 0));
+    rb.extend(std::iter::repeat(7).take(rb.len() + 1));
     black_box(rb.len());
 }
 
